@@ -711,6 +711,12 @@ int _vnadata_load_npd(vnadata_internal_t *vdip, FILE *fp, const char *filename)
 	case VPT_S:
 	    switch (vfdp->vfd_format) {
 	    case VNADATA_FORMAT_IL:
+		if (ports < 2) {
+		    _vnadata_error(vdip, VNAERR_SYNTAX, "%s (line %d) error: "
+			    "insertion loss requires at least two ports",
+			    nss.nss_filename, parameter_line);
+		    goto out;
+		}
 		fields = ports * (ports - 1);
 		break;
 
